@@ -2,6 +2,7 @@ package hlib
 
 import (
 	"bytes"
+	"github.com/itchio/wharf/pwr"
 
 	"github.com/itchio/lake/pools/fspool"
 	"github.com/itchio/savior/seeksource"
@@ -12,17 +13,22 @@ type RediffOpts struct {
 	Partitions, Concurrency int
 	ForceMapAll             bool
 	SizeLimit               int64
+	Compression             *pwr.CompressionSettings // nil = the instance parameter comp (default NONE)
 }
 
 // Optimize rewrites patch with the optimizer (bsdiff series substituted where files are mapped).
 func Optimize(patch []byte, oldDir, newDir string, o RediffOpts) ([]byte, rediff.DiffMappings, error) {
+	comp := o.Compression
+	if comp == nil {
+		comp = CodecParam()
+	}
 	rc, err := rediff.NewContext(rediff.Params{
 		PatchReader:           seeksource.FromBytes(patch),
 		Partitions:            o.Partitions,
 		SuffixSortConcurrency: o.Concurrency,
 		ForceMapAll:           o.ForceMapAll,
 		RediffSizeLimit:       o.SizeLimit,
-		Compression:           None(),
+		Compression:           comp,
 		Consumer:              Consumer,
 	})
 	if err != nil {
